@@ -1,9 +1,11 @@
 SPECIFICATION TSpec
 CONSTANTS
-  Keys = {1,2,3,4,5,6,7,8,9,10}
+  Keys = {0,1,2,3,4,5,6,7,8,9}
   Vals = {1,2,3,4,5}
   Default = 0
-  MaxSize = 10
+  MaxSize = 100000
+  Ext = {"write", "cidx", "throw", "two"}
+  RangeN = {}
 INVARIANTS UniqueKeys LastAgrees
 POSTCONDITION Post
 CHECK_DEADLOCK FALSE
